@@ -14,7 +14,7 @@ rm -f "$OUT"
 SYSROOT="$(rustc +nightly --print sysroot)"
 LD_LIBRARY_PATH="$SYSROOT/lib" \
 CARGO_NET_OFFLINE=true \
-RUSTFLAGS="-Zmir-opt-level=0 -Coverflow-checks=on -Awarnings ${VERIF_CFG:-}" \
+RUSTFLAGS="${VERIF_RUSTFLAGS_OVERRIDE:--Zmir-opt-level=0 -Coverflow-checks=on -Awarnings} ${VERIF_CFG:-}" \
 RUSTC_WORKSPACE_WRAPPER="$DRV" \
 MIRDUMP_OUT="$OUT" MIRDUMP_TAG="$TAG" \
 CARGO_TARGET_DIR="$TD" \
